@@ -900,12 +900,18 @@ def make_jobs(ctx: Ctx) -> list[dict]:
             if w.get("same_second"):
                 jobs[-1]["same_second"] = sorted(w["same_second"])
     # construct × edit-kind sweep: every scenario × every variant of its defining module, several scenarios per world
-    sweeps = G.packed_sweeps(None) + G.packed_sweeps(random.Random(f"c03sweep:{seed}"))
+    sweeps = G.packed_sweeps(None, which="base") + G.packed_sweeps(random.Random(f"c03sweep:{seed}"), which="base")
+    # second catalogue (gen2: type positions, snapshot fields, kind changes): the fixed walk on every run,
+    # shuffled walks and random worlds in the thorough tier
+    wide = G.packed_sweeps(None, group=11, which="wide")
     if ctx.quick():
         for i, (name, steps) in enumerate(sweeps):
             add("pairs", name, steps, MODES[(i + seed) % 3])
+        for i, (name, steps) in enumerate(wide):
+            add("pairs", name, steps, MODES[(i + seed) % 3])
     else:
-        for name, steps in sweeps + G.packed_sweeps(random.Random(f"c03sweep2:{seed}")) + G.pair_histories():
+        more = G.packed_sweeps(random.Random(f"c03sweep2:{seed}"), which="base") + G.packed_sweeps(random.Random(f"c03wide:{seed}"), group=11, which="wide")
+        for name, steps in sweeps + wide + more + G.pair_histories()[:G.N_BASE_SCENARIOS]:
             for mode in MODES:
                 add("pairs", name, steps, mode)
     scripted = scripted_buildsim()
@@ -916,7 +922,7 @@ def make_jobs(ctx: Ctx) -> list[dict]:
         add("buildsim", f"{seed}.{i}", buildsim_history(f"c03:{seed}:{i}", ctx.pick(5, 6)), MODES[i % 3])
     for i in range(ctx.pick(12, 100)):
         rng = random.Random(f"c03cat:{seed}:{i}")
-        steps = G.catalog_history(rng, ctx.pick(5, 7))
+        steps = G.catalog_history(rng, ctx.pick(5, 7), wide=not ctx.quick() and i % 2 == 1)
         add("catalog", f"{seed}.{i}", steps, MODES[i % 3])
         if MODES[i % 3] == "normal" and i % 2 == 0:
             # entry-point mode: only the top using modules are given to mypy, the rest is found by following imports
